@@ -79,6 +79,58 @@ def _mutations(fnode, name, via=None):
     return out
 
 
+SCALAR_FUNCS = {"log", "log2", "log10", "log1p", "exp", "expm1", "sqrt", "pow", "floor", "ceil", "abs", "fabs", "float", "int", "bool", "min", "max", "round", "gamma", "lgamma", "gammaln", "comb", "factorial", "isfinite", "isnan", "float64", "float32", "int64", "len", "str", "hash", "tuple"}
+
+
+def memo_is_value_keyed(fn, tree, cls=None):
+    """True when a memoising decorator on `fn` cannot make a result depend on what was computed before: the function is a pure
+    function of scalar arguments (hashed by value) that returns a scalar.  Decided structurally:
+      - not a method with a receiver (an estimator is hashed by identity: the entry goes stale when it is mutated),
+      - no attribute is read from a parameter or a local (only from imported modules), no global / nonlocal statement,
+      - free names are imports, builtins or module constants bound once to a non-container,
+      - only scalar math functions are called (no array constructor: a cached array could be changed by a caller), no display
+        of a mutable container, no random number source."""
+    import builtins
+    if cls is not None and not any((isinstance(d, ast.Name) and d.id == "staticmethod") for d in fn.decorator_list):
+        return False
+    a = fn.args
+    params = {x.arg for x in a.posonlyargs + a.args + a.kwonlyargs} | ({a.vararg.arg} if a.vararg else set()) | ({a.kwarg.arg} if a.kwarg else set())
+    imports = set()
+    once = {}
+    for st in tree.body:
+        if isinstance(st, ast.Import):
+            imports |= {(al.asname or al.name).split(".")[0] for al in st.names}
+        elif isinstance(st, ast.ImportFrom):
+            imports |= {al.asname or al.name for al in st.names}
+        elif isinstance(st, (ast.Assign, ast.AnnAssign)) and getattr(st, "value", None) is not None:
+            for t in (st.targets if isinstance(st, ast.Assign) else [st.target]):
+                if isinstance(t, ast.Name):
+                    once[t.id] = once.get(t.id, 0) + (1 if not _is_container(st.value) else 99)
+    locals_ = set(params)
+    for n in ast.walk(fn):
+        if isinstance(n, ast.Name) and isinstance(n.ctx, ast.Store):
+            locals_.add(n.id)
+    for n in [x for st in fn.body for x in ast.walk(st)]:
+        if isinstance(n, (ast.Global, ast.Nonlocal, ast.FunctionDef, ast.AsyncFunctionDef, ast.Lambda, ast.ClassDef, ast.List, ast.Dict, ast.Set, ast.ListComp, ast.DictComp, ast.SetComp, ast.GeneratorExp, ast.Yield, ast.YieldFrom, ast.Await, ast.Starred, ast.Subscript)):
+            return False
+        if isinstance(n, ast.Attribute):
+            root = n
+            while isinstance(root, ast.Attribute):
+                root = root.value
+            if not (isinstance(root, ast.Name) and root.id in imports and root.id not in locals_):
+                return False
+            if "random" in src(n):
+                return False
+        if isinstance(n, ast.Call):
+            nm = n.func.attr if isinstance(n.func, ast.Attribute) else (n.func.id if isinstance(n.func, ast.Name) else "")
+            if nm not in SCALAR_FUNCS:
+                return False
+        if isinstance(n, ast.Name) and isinstance(n.ctx, ast.Load) and n.id not in locals_:
+            if not (n.id in imports or hasattr(builtins, n.id) or once.get(n.id) == 1):
+                return False
+    return True
+
+
 def scan_module(tree, modname):
     """[(kind, where, name, node, text)] of H1-H3 findings in one module."""
     found = []
@@ -95,11 +147,12 @@ def scan_module(tree, modname):
                         for m in _mutations(fn, t.id):
                             found.append(("H1", f"{modname}:{fn.name}", t.id, m, src(m)[:70]))
     # H1' caching decorators
+    owner = {id(m): c for c in ast.walk(tree) if isinstance(c, ast.ClassDef) for m in c.body}
     for fn, _c in allfuncs:
         for d in fn.decorator_list:
             dn = d.func if isinstance(d, ast.Call) else d
             nm = dn.attr if isinstance(dn, ast.Attribute) else (dn.id if isinstance(dn, ast.Name) else "")
-            if nm in CACHE_DECORATORS:
+            if nm in CACHE_DECORATORS and not memo_is_value_keyed(fn, tree, owner.get(id(fn))):
                 found.append(("H1", f"{modname}:{fn.name}", "@" + nm, fn, f"@{src(d)} def {fn.name}(...)"))
     # H2 class-body containers
     for c in [n for n in ast.walk(tree) if isinstance(n, ast.ClassDef)]:
